@@ -779,7 +779,7 @@ Section RunFunction.
                     | None => NErr ECallStackOverflow s
                     | Some s1 =>
                         match push_frame s1 f with
-                        | None => NErr ECallStackOverflow s1
+                        | None => NErr ECallStackOverflow s       (* the first frame is removed again (bc2bd64) *)
                         | Some s2 =>
                             (* depth = call_stack.len() - 2; afterwards the call stack is popped back to it,
                                also when the callee failed *)
